@@ -236,12 +236,42 @@ def _weights_ok(p, weights):
 
 
 # ---------------------------------------------------------------------------------------------
+def real_checks(tier):
+    """concrete cross-check of what real arithmetic cannot see: float rounding of start + duration at extreme scales"""
+    return [dict(kind="extreme-scales", name="samples stay valid when positions are huge and durations tiny (float rounding of start + duration)")]
+
+
+def _extreme_scales():
+    import numpy as np
+    import pyannote.core.segment as pseg
+    from pygamma_agreement.sampler import StatisticalContinuumSampler
+    bad = []
+    for tag, kw in (("far from the origin", dict(avg_gap=1e10, std_gap=1e3, avg_duration=1e-5, std_duration=5e-6)),
+                    ("epoch seconds, microsecond durations", dict(avg_gap=1.7e9, std_gap=10.0, avg_duration=2e-6, std_duration=1e-6)),
+                    ("ordinary", dict(avg_gap=5.0, std_gap=5.0, avg_duration=10.0, std_duration=3.0))):
+        np.random.seed(1515)
+        s = StatisticalContinuumSampler()
+        s.init_sampling_custom(["g0", "g1"], avg_num_units_per_annotator=4, std_num_units_per_annotator=1, categories=["x", "y"], **kw)
+        for k in range(15):
+            try:
+                smp = s.sample_from_continuum
+            except Exception as ex:     # noqa: BLE001
+                bad.append(f"{tag}: draw {k} raised {ex!r}"[:160])
+                break
+            if smp.num_units < 1 or list(smp.annotators) != ["g0", "g1"] or any(not (u.segment.end - u.segment.start > pseg.SEGMENT_PRECISION) for _, u in smp):
+                bad.append(f"{tag}: draw {k} gave an invalid sample")
+                break
+    return dict(reproduced=bool(bad), detail="; ".join(bad[:3]))
+
+
 def replay(case):
     """Real build with numpy.random mocked by the model's draws.  Reproduced iff the sample is invalid
     OR differs from the documented generative process run on the same draws (count = |trunc(N(avg_nb,
     std_nb))| (>= 1 while empty), start = previous end + N(avg_gap, std_gap), duration = |N(avg_dur,
     std_dur)| redrawn while <= precision, label = choice(categories, p=weights)) OR a draw was
     requested with other parameters than the documented ones."""
+    if case.get("kind") == "extreme-scales":
+        return _extreme_scales()
     import numpy as np
     import pygamma_agreement as pa
     import pyannote.core.segment as pseg
